@@ -629,13 +629,14 @@ func (vc *VC) run() {
 	vc.q.Assert(Le(IntLit(1), alloc0))
 	st := &State{reach: True, mem: map[string]Term{}, alloc: alloc0}
 	for _, cl := range con.AllClauses() {
-		if strings.Contains(cl.Text, "locked(") || strings.Contains(cl.Text, "lockcount(") {
+		if strings.Contains(cl.Text, "locked(") || strings.Contains(cl.Text, "lockcount(") || strings.Contains(cl.Text, "wakes(") {
 			vc.trackLocks = true
 		}
 	}
 	if vc.trackLocks {
 		vc.get(st, "W_lockheld", lockHeldSort)
 		vc.get(st, "W_lockcnt", lockCntSort)
+		vc.get(st, "W_wakes", lockCntSort)
 	}
 	vc.registerCasNames(fn)
 	for n := range vc.casNames {
